@@ -50,7 +50,42 @@ var isumLemmas = []string{
 // ask for it: sumnonneg)
 const isumNonneg = `(assert (forall ((V (Array Int Int)) (o Int) (n Int)) (! (=> (forall ((a Int)) (! (=> (and (<= o a) (< a (+ o n))) (>= (select V a) 0)) :pattern ((select V a)))) (>= (isum V o n) 0)) :pattern ((isum V o n)))))`
 
+// counting lemmas (declared only by clauses that ask for them: sumcount):
+// a one-point change of the summands changes the sum by the difference at that
+// point; all-zero summands sum to 0; all-one summands over n >= 0 positions sum
+// to n. Each proved by induction in lemmaResults.
+var isumCount = []string{
+	// (the one-point-change lemma is not declared globally: its instances are
+	// emitted at the stores, storeSumFacts)
+	`(assert (forall ((V (Array Int Int)) (o Int) (n Int)) (! (=> (forall ((a Int)) (! (=> (and (<= o a) (< a (+ o n))) (= (select V a) 0)) :pattern ((select V a)))) (= (isum V o n) 0)) :pattern ((isum V o n)))))`,
+	`(assert (forall ((V (Array Int Int)) (o Int) (n Int)) (! (=> (and (>= n 0) (forall ((a Int)) (! (=> (and (<= o a) (< a (+ o n))) (= (select V a) 1)) :pattern ((select V a))))) (= (isum V o n) n)) :pattern ((isum V o n)))))`,
+}
+
 type vmapInfo struct{ fn, es string }
+
+// storeSumFacts: at a store into one element of an array, for every summand
+// function in use over this element sort (and only in functions that ask for
+// the counting lemmas, `sumcount`), the instance of the one-point-change lemma
+// (isum-point, proved by induction in lemmaResults) for the array before and
+// after the store and the stored position — hypotheses included, so nothing is
+// assumed: the solver still has to establish that the two summand arrays agree
+// everywhere else, which is the array theory plus the summand definition.
+func (e *Enc) storeSumFacts(es string, oldArr, idx, v Term) {
+	if !e.usesSum || e.con == nil || !e.con.SumCount {
+		return
+	}
+	for _, vi := range e.vmapList {
+		if vi.es != es {
+			continue
+		}
+		E := e.B.define("st.E", "(Array Int "+es+")", oldArr)
+		j := e.B.define("st.j", "Int", idx)
+		V1 := "(" + vi.fn + " " + E + ")"
+		V2 := "(" + vi.fn + " (store " + E + " " + j + " " + v + "))"
+		e.B.assume(fmt.Sprintf("(forall ((o Int) (n1 Int) (n2 Int)) (! (=> (and (= n1 n2) (<= o %s) (< %s (+ o n1)) (forall ((a Int)) (! (=> (and (<= o a) (< a (+ o n1)) (not (= a %s))) (= (select %s a) (select %s a))) :pattern ((select %s a))))) (= (isum %s o n2) (+ (isum %s o n1) (- (select %s %s) (select %s %s))))) :pattern ((isum %s o n1) (isum %s o n2))))",
+			j, j, j, V1, V2, V1, V2, V1, V2, j, V1, j, V1, V2))
+	}
+}
 
 // appendSumFacts: at an append, for every summand function in use over this
 // element sort, the instance of the concatenation lemma (proved by induction in
@@ -87,6 +122,11 @@ func (e *Enc) useIsum() {
 	}
 	if e.con != nil && e.con.SumNonneg {
 		e.B.declTop("isum.nonneg", isumNonneg)
+	}
+	if e.con != nil && e.con.SumCount {
+		for i, l := range isumCount {
+			e.B.declTop(fmt.Sprintf("isum.count%d", i), l)
+		}
 	}
 	e.usesSum = true
 }
@@ -251,6 +291,7 @@ func lemmaResults() []*FuncResult {
 (declare-const m Int)
 (declare-const V3 (Array Int Int))
 (declare-const o3 Int)
+(declare-const j Int)
 `
 	mk := func(name, src string, hyps []string, goal string) *FuncResult {
 		b := &Builder{sorts: map[string]bool{}, declared: map[string]bool{}, strLits: map[string]string{}, typeIDs: map[string]int{}}
@@ -270,6 +311,12 @@ func lemmaResults() []*FuncResult {
 	nnHyp := func(n string) string {
 		return fmt.Sprintf("(forall ((a Int)) (! (=> (and (<= o1 a) (< a (+ o1 %s))) (>= (select V1 a) 0)) :pattern ((select V1 a))))", n)
 	}
+	ptHyp := func(n string) string {
+		return fmt.Sprintf("(forall ((a Int)) (! (=> (and (<= o1 a) (< a (+ o1 %s)) (not (= a j))) (= (select V1 a) (select V2 a))) :pattern ((select V1 a))))", n)
+	}
+	cHyp := func(n, c string) string {
+		return fmt.Sprintf("(forall ((a Int)) (! (=> (and (<= o1 a) (< a (+ o1 %s))) (= (select V1 a) %s)) :pattern ((select V1 a))))", n, c)
+	}
 	const extAx = `(forall ((A (Array Int Int)) (B (Array Int Int)) (p1 Int) (p2 Int) (l Int)) (! (=> (forall ((a Int)) (! (=> (and (<= p1 a) (< a (+ p1 l))) (= (select A a) (select B (+ p2 (- a p1))))) :pattern ((select A a)))) (= (isum A p1 l) (isum B p2 l))) :pattern ((isum A p1 l) (isum B p2 l))))`
 	return []*FuncResult{
 		mk("isum-empty", "sum over an empty range is 0", []string{"(<= n 0)"}, "(= (isum V1 o1 n) 0)"),
@@ -283,6 +330,17 @@ func lemmaResults() []*FuncResult {
 		mk("isum-nonneg-step", "sum of non-negative summands is non-negative, induction step",
 			[]string{"(> n 0)", "(=> " + nnHyp("(- n 1)") + " (>= (isum V1 o1 (- n 1)) 0))", nnHyp("n")},
 			"(>= (isum V1 o1 n) 0)"),
+		mk("isum-point-base", "a one-point change of the summands, base case (no position in an empty range)", []string{"(<= n 0)", "(<= o1 j)", "(< j (+ o1 n))"}, "false"),
+		mk("isum-point-step", "a one-point change of the summands changes the sum by the difference at that point, induction step",
+			[]string{extAx, "(> n 0)", "(<= o1 j)", "(< j (+ o1 n))", ptHyp("n"),
+				"(=> (and (< j (+ o1 (- n 1))) " + ptHyp("(- n 1)") + ") (= (isum V2 o1 (- n 1)) (+ (isum V1 o1 (- n 1)) (- (select V2 j) (select V1 j)))))"},
+			"(= (isum V2 o1 n) (+ (isum V1 o1 n) (- (select V2 j) (select V1 j))))"),
+		mk("isum-zeros-base", "all-zero summands sum to 0, base case", []string{"(<= n 0)"}, "(= (isum V1 o1 n) 0)"),
+		mk("isum-zeros-step", "all-zero summands sum to 0, induction step",
+			[]string{"(> n 0)", "(=> " + cHyp("(- n 1)", "0") + " (= (isum V1 o1 (- n 1)) 0))", cHyp("n", "0")}, "(= (isum V1 o1 n) 0)"),
+		mk("isum-ones-base", "all-one summands over n >= 0 positions sum to n, base case", []string{"(= n 0)"}, "(= (isum V1 o1 n) n)"),
+		mk("isum-ones-step", "all-one summands over n >= 0 positions sum to n, induction step",
+			[]string{"(> n 0)", "(=> " + cHyp("(- n 1)", "1") + " (= (isum V1 o1 (- n 1)) (- n 1)))", cHyp("n", "1")}, "(= (isum V1 o1 n) n)"),
 		mk("isum-snoc", "a range extending another (possibly of another array that agrees with it) by one element", []string{extAx, "(>= n 0)", extHyp("n")},
 			"(= (isum V2 o2 (+ n 1)) (+ (isum V1 o1 n) (select V2 (+ o2 n))))"),
 		mk("isum-concat-base", "sum over a concatenation, base case (nothing appended)",
